@@ -10,7 +10,7 @@ of the working tree; per module
      every syntax, round-trip battery; mismatches: identifier without a row,
      identifier of row i with the value of row j (BER, UPER, XER), bit flips and
      truncations; everything under ASan/UBSan/LSan, the driver restarted after a crash."""
-import sys, os, re
+import sys, os, re, json
 sys.path.insert(0, os.path.join(os.path.dirname(os.path.abspath(__file__)), "..", "lib"))
 from vlib import *
 from modbuild import *
@@ -35,6 +35,41 @@ END
 END
 """,
 }
+
+
+# run-time probe: an OPTIONAL open-type member (ATF_POINTER), a shape the generator does not emit
+PR1 = """PR1 DEFINITIONS ::= BEGIN
+  MY-CLASS ::= CLASS { &id INTEGER UNIQUE, &Type } WITH SYNTAX { ID &id TYPE &Type }
+  Int ::= INTEGER
+  Boo ::= BOOLEAN
+  MySet MY-CLASS ::= { { ID 1 TYPE Int } | { ID 2 TYPE Boo } }
+  Frame ::= SEQUENCE { id MY-CLASS.&id({MySet}), val2 [1] MY-CLASS.&Type({MySet}{@id}) OPTIONAL, tail [2] INTEGER OPTIONAL }
+END
+"""
+PR1_CASES = [("3003020101", True), ("3008020101a203020109", True),            # open type absent
+             ("3008020101a103020105", False), ("3008020102a1030101ff", False),   # present: row 1 (INTEGER 5), row 2 (TRUE)
+             ("300d020101a103020105a203020109", False)]
+NULLCONT = re.compile(r"SEGV on unknown address 0x0000000000[0-9a-f]{2} .*\n(.*\n){0,12}?.*OPEN_TYPE_ber_get")
+
+
+def probe_optional_open_type(run, p):
+    """finding C18-optional-open-type-null-container: OPEN_TYPE_ber_get computes the inner value's address from the NULL
+    container pointer of an ATF_POINTER member.  Known while the decoder dies exactly that way; a clean DER round trip is
+    the repaired behaviour; anything else is a violation."""
+    lines = ["dec Frame ber " + h for h, _ in PR1_CASES]
+    outs, crashes, leak = run_resilient(p["exe"], lines)
+    for i, ((h, absent), l, o) in enumerate(zip(PR1_CASES, lines, outs)):
+        run.case(l)
+        if o.startswith("OK %d %s ck=0" % (len(h) // 2, h)):
+            run.count("probe_optional_open_type_" + ("absent_ok" if absent else "present_ok"))
+        elif o == "CRASH" and not absent and NULLCONT.search(crashes.get(i, "")):
+            run.known_finding("C18-optional-open-type-null-container", l)
+        else:
+            run.violation("crash:optional-open-type" if o == "CRASH" else "oracle:opentype_roundtrip(optional)",
+                          {"module": PR1, "command_line": l, "c": o, "what": "a valid frame with an OPTIONAL open-type member is not decoded and re-encoded",
+                           "stderr_tail": crashes.get(i, "")[-2500:]})
+    if leak is not None:
+        run.violation("leak:optional-open-type", {"module": PR1, "what": "sanitizer report at exit", "stderr_tail": leak[-2500:]})
 
 
 def mrun(model, lines):
@@ -377,6 +412,11 @@ def check_module(run, rng, model, m, tier):
 
 def main(tier):
     run = Run("C18", tier)
+    # entries of the fragment that bin/mkmanifest has not assembled into known_findings.json yet
+    fp = os.path.join(VERIF, "findings.d", "C18.json")
+    if os.path.exists(fp):
+        have_ids = {f["id"] for f in run.findings}
+        run.findings += [f for f in json.load(open(fp)) if f.get("status") == "open" and f["id"] not in have_ids]
     rng = Rng(run.seed)
     ok, out = coq_build()
     nthm, ndis, axioms, names, plog = obligations("C18") if ok else (0, 0, set(), [], out)
@@ -392,6 +432,7 @@ def main(tier):
     mods += [g.module("MO%d" % i, idkind="oid", untagged=False) for i in range(1 if tier == "quick" else 4)]
     mods += [g.module("ML0", lone=True, nrows=1, untagged=False)] + [g.module("ML%d" % i, lone=True, untagged=False) for i in range(1, 2 if tier == "quick" else 5)]
     probes = [{"name": t.split()[0], "text": t, "defs": [("Frame", None)], "probe": fid} for fid, t in PROBES.items()]
+    probes.append({"name": "PR1", "text": PR1, "defs": [("Frame", None)], "probe": None})
     try:
         build_modules(mods + probes, tag="c18", moddrv_extra=EXTRA)
     except BuildError as e:
@@ -399,7 +440,13 @@ def main(tier):
         return run.finish("proof", (nthm, ndis))
     for p in probes:
         run.case("build " + p["name"])
-        if p.get("exe"):
+        if p["probe"] is None:
+            if p.get("exe"):
+                probe_optional_open_type(run, p)
+            else:
+                run.violation("build:module", {"what": "the probe module with an OPTIONAL open-type member does not build", "module": p["text"],
+                                               "asn1c_out": p.get("asn1c_out", "")[-1500:], "build_log": p.get("build_log", "")[-1500:]})
+        elif p.get("exe"):
             run.count("probe_builds")
         else:
             run.known_finding(p["probe"], p["name"])
